@@ -167,6 +167,10 @@ class TokenStream:
                 if ret_val and not ret_val.isspace():
                     self._source_io.seek(new_line_pos + additional)
                     self._head_syntax_error_description = None
+                    # The lexer may have read past the new position
+                    # (e.g. reached end-of-file inside a quoted look-ahead token):
+                    # its state belongs to the old position.
+                    self._lexer = self._new_lexer()
                     self.consume()
                 else:
                     self._start_pos = new_line_pos + additional
